@@ -122,13 +122,14 @@ def step_definitions(plan):
             if emit:
                 import logging as _logging
                 import sys as _sys
+                sname = scenario.name if scenario is not None else ""
                 if emit.get("stdout") is not None:
-                    _sys.stdout.write(emit["stdout"])
+                    _sys.stdout.write(emit["stdout"].replace("{S}", sname))
                 if emit.get("stderr") is not None:
-                    _sys.stderr.write(emit["stderr"])
+                    _sys.stderr.write(emit["stderr"].replace("{S}", sname))
                 if emit.get("log") is not None:
                     _logging.getLogger(emit.get("logger") or "vf").log(
-                        int(emit.get("level") or _logging.WARNING), emit["log"])
+                        int(emit.get("level") or _logging.WARNING), emit["log"].replace("{S}", sname))
         for obs in plan.observers:
             obs("step", uid, context, info)
 
